@@ -204,7 +204,7 @@ pub fn judge(root: &Path, h: &Hist) -> Result<Outcome, (String, String)> {
                 // directory and before the operation's own publication attempt
                 let attempt = ev.iter().find(|e| (e.call == "rename" || e.call == "link") && e.path2.ends_with(&format!("/{}", ks.name)) && !e.path2.contains(".kismet_temp")).map(|e| e.seq).unwrap_or(u64::MAX);
                 ev.iter().any(|x| {
-                    x.call == "futimens"
+                    matches!(x.call, "futimens" | "utimensat")
                         && x.ok()
                         && x.path.ends_with(&format!("/{}", ks.name))
                         && !x.path.contains(".kismet_temp")
